@@ -112,8 +112,12 @@ CHECKS = {
             "projection into the branches of a UNION) returns a coherent Select with exactly the rows of the operation "
             "applied to the given one; _append_binary_to_select(Join) - stripping the operands' projections, guarding hidden "
             "columns, re-projecting - yields exactly the join; operation.apply(target) for a unary operation inside the SQL "
-            "engine does the same. Proof (partial): the join factory's own path (PartialJoin through apply) and 'its result "
-            "is already a Select' are validated by correspondence + the structural oracle + SQLite execution, not proved. "
+            "engine does the same, and relation.join(rhs, predicate) inside one SQL engine (PartialJoin through apply, with "
+            "automatic resolution of the common columns) returns a coherent Select with exactly the rows of the join; the "
+            "results of these factories are Selects, so conforming them returns the same object. Proof (partial): factory "
+            "calls whose options take the operation into another engine (preferred_engine/back-tracking/transfer) and trees "
+            "containing Select markers the engine did not produce are validated by correspondence + the structural oracle + "
+            "SQLite execution, not proved. "
             + CORR, "", "DESIGN.md 5/C17"),
     "C18": (PR, "Lean 4 theorems over the lazy-iteration event model (exec_lazy, events_sublist, consumer frames) + correspondence",
             "Machine-checked for all lazy-only trees, leaf contents, states and consumption depths: execute() changes no "
